@@ -234,25 +234,31 @@ fn residual(a: &[Vec<RNum>], x: &[RNum], b: &[RNum], lsq: bool) -> (Vec<RNum>, V
 const TOL: f64 = 1e-9;
 
 fn residual_bad(r: &[RNum], s: &[RNum], order: usize) -> Option<String> {
+    residual_bad_scaled(r, s, order, 1.0)
+}
+
+/// `glob`: allowance relative to the largest term of a kind anywhere in the system, in units of TOL
+/// (1 for square systems, 100 for the normal equations whose conditioning is squared)
+fn residual_bad_scaled(r: &[RNum], s: &[RNum], order: usize, glob: f64) -> Option<String> {
     // Rounding noise left by the elimination in one row comes from the other rows too, so each
-    // component is allowed 1e-9 of its own terms or 1e-10 of the largest term of its kind anywhere (second
-    // derivatives see the conditioning twice).
+    // component is allowed 1e-9 of its own terms or 1e-9 (normal equations: 1e-7, their conditioning is squared)
+    // of the largest term of its kind anywhere (second derivatives see the conditioning twice).
     let gv = s.iter().fold(0.0f64, |m, x| m.max(x.v));
     let gg = s.iter().flat_map(|x| x.g.values()).fold(gv * 1e-3, |m, x| m.max(*x));
     let gh = s.iter().flat_map(|x| x.h.values()).fold(gg * 1e-3, |m, x| m.max(*x));
     for (i, (ri, si)) in r.iter().zip(s.iter()).enumerate() {
-        if !(ri.v.abs() <= TOL * si.v.max(0.1 * gv).max(1e-300)) {
+        if !(ri.v.abs() <= TOL * si.v.max(glob * gv).max(1e-300)) {
             return Some(format!("row {} value residual {:e} (terms {:e})", i, ri.v, si.v));
         }
         if order >= 1 {
             let names: BTreeSet<String> = ri.names().union(&si.names()).cloned().collect();
             for n in names.iter() {
-                if !(ri.gd(n).abs() <= TOL * si.gd(n).max(0.1 * gg).max(1e-300)) {
+                if !(ri.gd(n).abs() <= TOL * si.gd(n).max(glob * gg).max(1e-300)) {
                     return Some(format!("row {} d/d{} residual {:e} (terms {:e}, largest anywhere {:e})", i, n, ri.gd(n), si.gd(n), gg));
                 }
                 if order >= 2 {
                     for m in names.iter() {
-                        if !(ri.hd(n, m).abs() <= TOL * si.hd(n, m).max(0.1 * gh).max(1e-300)) {
+                        if !(ri.hd(n, m).abs() <= TOL * si.hd(n, m).max(glob * gh).max(1e-300)) {
                             return Some(format!("row {} d2/d{}d{} residual {:e} (terms {:e}, largest anywhere {:e})", i, n, m, ri.hd(n, m), si.hd(n, m), gh));
                         }
                     }
@@ -392,7 +398,7 @@ impl Prop for C13 {
         tier.pick(10_000, 600_000)
     }
     fn rule(&self) -> String {
-        "Seeded well-conditioned systems (own float LU: smallest pivot >= 0.02 of the largest; normal equations >= 0.01): n = 1..8 square, tall up to 12x6 with allow_lsq; sparsity patterns forcing pivoting at the first, middle and last columns (zero diagonal, permuted diagonal plus fill, ties in absolute value, small diagonal, tridiagonal, dense); entries f64 / Dual / Dual2 / Number(F64 mixed with Dual or Dual2) for dsolve, float matrix with each right-hand-side type for fdsolve; derivative parts over 3-5 names in varied layouts. Oracle: residual A x - b (A^T A x - A^T b for lsq) computed in reference-AD arithmetic for value, every first and every second derivative, accepted within 1e-9 of the summed magnitude of its terms or 1e-10 of the largest such magnitude in the system; plus the real dmul21_ residual (never alone) and invariance under a row permutation of (A,b). distinct_nontrivial = distinct (kind, size, pattern, swap count, lsq) x case.".into()
+        "Seeded well-conditioned systems (own float LU: smallest pivot >= 0.02 of the largest; normal equations >= 0.01): n = 1..8 square, tall up to 12x6 with allow_lsq; sparsity patterns forcing pivoting at the first, middle and last columns (zero diagonal, permuted diagonal plus fill, ties in absolute value, small diagonal, tridiagonal, dense); entries f64 / Dual / Dual2 / Number(F64 mixed with Dual or Dual2) for dsolve, float matrix with each right-hand-side type for fdsolve; derivative parts over 3-5 names in varied layouts. Oracle: residual A x - b (A^T A x - A^T b for lsq) computed in reference-AD arithmetic for value, every first and every second derivative, accepted within 1e-9 of the summed magnitude of its terms or 1e-9 (least squares: 1e-7) of the largest such magnitude in the system; plus the real dmul21_ residual (never alone) and invariance under a row permutation of (A,b). distinct_nontrivial = distinct (kind, size, pattern, swap count, lsq) x case.".into()
     }
     fn assumptions(&self) -> Vec<String> {
         vec!["singular / ill-conditioned systems are outside the property and are regenerated".into(), "Gaussian elimination with partial pivoting is backward stable for these sizes; derivative residuals get the same relative allowance".into()]
@@ -460,7 +466,7 @@ impl Prop for C13 {
             return;
         }
         let (r, s) = residual(&ra, &x, &rb, lsq);
-        if let Some(what) = residual_bad(&r, &s, order) {
+        if let Some(what) = residual_bad_scaled(&r, &s, order, if lsq { 100.0 } else { 1.0 }) {
             ctx.violation(
                 &format!("C13|residual|{}|{}|{}", if lsq { "lsq" } else { "square" }, KINDS[kind], pat),
                 json!({"case": case(), "what": what, "x_values": x.iter().map(|v| v.v).collect::<Vec<_>>()}),
